@@ -150,6 +150,8 @@ def build_population(prog, name='popnet'):
                   'lin/x': [float(X0['x'] + first[pi] + u) for u in range(p['n'])]}
         if p['kind'] == 'S':
             params['aux/q'] = [float(X0['q'] + first[pi] + u) for u in range(p['n'])]
+        if p['kind'] in ('P', 'Q'):
+            params['prod/z'] = [float(X0['z'] + first[pi] + u) for u in range(p['n'])]
         populations[f'p{pi + 1}'] = PopulationTemplate(f'p{pi + 1}', node, p['n'], params=params)
     # one coupling operator with a constant gain; the second template differs in that constant only (same equations)
     cpre_op = OperatorTemplate('cpre_op', equations=['m_out = g*m_pre'],
@@ -174,7 +176,8 @@ def build_population(prog, name='popnet'):
             kw = dict(edge=pre2, edge_var_map={'m_pre': 'source'})
         elif c['cpl'] == 'diff':
             kw = dict(edge=diff, edge_var_map={'m_pre': 'source', 'm_post': f"p{c['tp']}/lin/x"})
-        connections.append(Connectivity(f"p{c['sp']}/lin/x", f"p{c['tp']}/lin/{c['tv']}", W, **kw))
+        src = f"p{c['sp']}/prod/z" if c.get('sv') == 'z' else f"p{c['sp']}/lin/x"
+        connections.append(Connectivity(src, f"p{c['tp']}/lin/{c['tv']}", W, **kw))
     return CircuitTemplate(name, populations=populations, connections=connections)
 
 
@@ -193,7 +196,8 @@ def build_explicit_from_matrix(prog, name='explnet'):
         W = np.array(c['w'], dtype='float64') if c['w'] else np.full((nt, ns), float(c['sw']))
         src = [f'n{first[c["sp"] - 1] + j}' for j in range(ns)]
         tgt = [f'n{first[c["tp"] - 1] + i}' for i in range(nt)]
-        base.add_edges_from_matrix('lin/x', f"lin/{c['tv']}", src, tgt, weight=W, template=etmp if c['cpl'] == 'pre' else None)
+        base.add_edges_from_matrix('prod/z' if c.get('sv') == 'z' else 'lin/x', f"lin/{c['tv']}", src, tgt, weight=W,
+                                   template=etmp if c['cpl'] == 'pre' else None)
     return base
 
 
